@@ -1,6 +1,6 @@
 (* C03 - Final contract is the last bid, its doubling state and its true declarer.
    Only statements, each closed by [exact]; proofs are in the files imported below. *)
-From BE Require Import Model.Auction Spec.Laws Proofs.Auction.
+From BE Require Import Model.Auction Spec.Laws Gen.AuctionFns Proofs.Auction Proofs.AuctionGen Proofs.AuctionGenCor.
 Local Open Scope nat_scope.
 
 (* for every finished auction the reported contract is the one Spec/Laws.v derives from the bare history *)
@@ -31,4 +31,23 @@ Theorem C03_example_declarer_is_first_namer :
   Some (mkcontract (Some (L4, Tr He)) true false VNone (Some South)).
 Proof. exact ex_declarer_is_first_namer. Qed.
 Print Assumptions C03_example_declarer_is_first_namer.
+
+(* contract() regenerated from bidding_phase.py on every run *)
+Theorem C03_generated_contract_is_hand_model :
+  forall s, g_contract s = contract_of s.
+Proof. exact g_contract_eq. Qed.
+Print Assumptions C03_generated_contract_is_hand_model.
+
+Theorem C03_contract_generated :
+  forall d v offers,
+  active (g_reach d v offers) = None ->
+  g_contract (g_reach d v offers) = Some (contract_spec d v (hist (g_reach d v offers))).
+Proof. exact g_contract_at_end. Qed.
+Print Assumptions C03_contract_generated.
+
+Theorem C03_none_before_end_generated :
+  forall d v offers,
+  active (g_reach d v offers) <> None -> g_contract (g_reach d v offers) = None.
+Proof. exact g_no_contract_before_end. Qed.
+Print Assumptions C03_none_before_end_generated.
 
